@@ -33,7 +33,7 @@
    for every statement below. *)
 From SV Require Import Store.Raw Store.RawRefine Store.Masked Store.StoreInv.
 From SV Require Import Unwind.Fault Unwind.UWorld Unwind.RelP Unwind.FaultBasics Unwind.CleanProps Unwind.StoreProps
-  Unwind.LedgerInv Unwind.UWorldProps Unwind.Summary.
+  Unwind.LedgerInv Unwind.UWorldProps Unwind.Summary Unwind.ChangeSet Unwind.ChangeSetProps.
 
 (* ---- with no fault armed the model is the existing one ---- *)
 
@@ -275,6 +275,37 @@ Theorem C19_other_storages_untouched : forall orc w sid sid',
   (forall h v, NM.find sid' (uw_stores (fst (fst (ustep orc w (UInsert sid h v))))) = NM.find sid' (uw_stores w)).
 Proof. exact other_storages_untouched. Qed.
 
+(* ---- specs::ChangeSet (src/changeset.rs): clear is [m_clear_f] on the dense
+   kind (C19_clear applies verbatim: ChangeSet.v, cs_step_core); add: ---- *)
+
+Theorem C19_changeset_add : forall ms m id v f, MInvP csP ms m -> cs_shape ms -> f_pan f = false ->
+  let ms' := fst (cs_add_f ms id v f) in
+  let f' := snd (cs_add_f ms id v f) in
+  cs_shape ms' /\ cx_stuck (fx f') = cx_stuck (fx f) /\
+  match NM.find id m with
+  | Some old =>
+      MInvP csP ms' (NM.add id (fst old, (snd old + snd v)%Z) m) /\
+      cx_drops (fx f') = fst v :: cx_drops (fx f) /\ f_pan f' = Nat.eqb (f_arm f) 1 /\
+      (forall i t, own ms' (NM.add id (fst old, (snd old + snd v)%Z) m) i t ->
+         (own ms m i t /\ i <> id) \/ (i = id /\ t = (fst old, (snd old + snd v)%Z)))
+  | None =>
+      MInvP csP ms' (NM.add id v m) /\ cx_drops (fx f') = cx_drops (fx f) /\ f_pan f' = false /\
+      (forall i t, own ms' (NM.add id v m) i t -> (own ms m i t /\ i <> id) \/ (i = id /\ t = v))
+  end.
+Proof. exact cs_add_f_spec. Qed.
+
+Theorem C19_changeset_no_double_drop : forall os, ndr (cs_hist_uids os) ->
+  ndr (snd (cs_run cs_init [] os)) /\
+  ndr (cx_drops (fx (cs_teardown (fst (cs_run cs_init [] os)))) ++ snd (cs_run cs_init [] os)).
+Proof. exact cs_no_double_drop. Qed.
+
+Theorem C19_changeset_no_stale_read : forall os o, ndr (cs_hist_uids (os ++ [o])) ->
+  let s := fst (cs_run cs_init [] os) in
+  let L := snd (cs_run cs_init [] os) in
+  (forall t, In t (out_toks (snd (fst (cs_step s o)))) -> real (fst t) = true -> ~ In (fst t) L) /\
+  cx_stuck (fx (snd (cs_step s o))) = false.
+Proof. exact cs_no_stale_read. Qed.
+
 Print Assumptions C19_no_double_drop.
 Print Assumptions C19_teardown_no_double_drop.
 Print Assumptions C19_no_stale_read.
@@ -283,6 +314,7 @@ Print Assumptions C19_clear.
 Print Assumptions C19_drop_components.
 Print Assumptions C19_insert.
 Print Assumptions C19_faulting_delete_leaves.
+Print Assumptions C19_changeset_no_double_drop.
 
 (* ---- non-vacuity: the panic really happens mid-way ---- *)
 
@@ -332,4 +364,18 @@ Example C19_default_orphan_transcript :
     [50;1;2; 1;0; 1;3;2;101;1; 2;1;1; 30;4;2;0;102;5; 37;1;2; 38;1;2; 39;1;2]%Z) =
   [[7]; [10;0;0]; [1;0;1]; [10;0;0]; [1;1;1]; [10;0;0]; [7]; [10;0;0]; [29]; [10;1;1;1099511627776];
    [14;1;1]; [10;0;0]; [17;2;2;102;5;101;1]; [10;0;0]; [7]; [10;0;2;102;101]; [90;0;0]]%Z.
+Proof. vm_compute. reflexivity. Qed.
+
+(* a ChangeSet with three values; `+=` onto a present entry with the fault armed:
+   the argument 104 is destroyed and panics, the entry has grown (15); then
+   clear with the fault at the second destructor: all three destroyed (drop
+   glue), the changeset is empty and usable.  The transcript is the real
+   implementation's. *)
+Example C19_changeset_transcript :
+  cs_transcript
+    [81;0; 1;0; 1;0; 1;0; 82;3;0;101;5; 82;3;2;102;7; 82;3;1;103;1; 2;1;1; 82;3;0;104;10; 86;0; 2;1;2; 85;0; 86;0;
+     82;3;1;105;1]%Z =
+  [[7]; [10;0;0]; [1;0;1]; [10;0;0]; [1;1;1]; [10;0;0]; [1;2;1]; [10;0;0]; [7]; [10;0;0]; [7]; [10;0;0]; [7]; [10;0;0];
+   [7]; [10;0;0]; [29]; [10;1;1;104]; [21;3;0;101;15;1;103;1;2;102;7]; [10;0;0]; [7]; [10;0;0];
+   [29]; [10;1;3;101;102;103]; [21;0]; [10;0;0]; [7]; [10;0;0]; [90;0;1;105]]%Z.
 Proof. vm_compute. reflexivity. Qed.
